@@ -7,7 +7,9 @@ enum { HLL_4 = 0, HLL_6 = 1, HLL_8 = 2 };
 enum { LIST = 0, SET = 1, HLL = 2 };
 struct auxmap { uint8_t lgConfigK; uint8_t lgAuxArrInts; uint32_t auxCount; };
 uint8_t g_alloc_lg; int g_live_aux, g_live0;        /* ghost: AuxHashMap objects allocated and not yet released */
+#ifndef REAL_COMPUTE_LG
 uint8_t computeLgArrInts(int mode, uint32_t count, uint8_t lgConfigK) __CPROVER_assigns() __CPROVER_ensures(1);
+#endif
 /* new AuxHashMap(lgArrInts, lgConfigK): allocates 4 << lgArrInts bytes - the request must be bounded by what the image can justify */
 struct auxmap* aux_new_c(uint8_t lgAuxArrInts, uint8_t lgConfigK) {
   struct auxmap* m = (struct auxmap*)verif_alloc(sizeof(struct auxmap)); m->lgConfigK = lgConfigK; m->lgAuxArrInts = lgAuxArrInts; m->auxCount = 0;
@@ -73,3 +75,178 @@ UNIT = {
               "replace": ["computeLgArrInts", "aux_mustAdd"]}],
     "assumptions": ["SIZE_CAP: symbolic buffer length 0..65536", "AuxHashMap construction / deleter are small C models (allocate / release the object, count it in ghost g_live_aux), mustAdd is a recording contract (ghost g_live_aux counts live tables)"],
 }
+
+# ---------------------------------------------------------------- HllArray::newHll(bytes) and the factory dispatch
+SI = "hll/include/HllSketchImpl-internal.hpp"
+FA = "hll/include/HllSketchImplFactory.hpp"
+PRELUDE2 = PRELUDE + r'''
+#define target_hll_type_HLL_4 HLL_4
+#define target_hll_type_HLL_6 HLL_6
+#define target_hll_type_HLL_8 HLL_8
+#define hll_mode_LIST LIST
+#define hll_mode_SET SET
+#define hll_mode_HLL HLL
+struct hllarr { uint8_t lgConfigK_; uint8_t tgtHllType_; bool startFullSize_; uint8_t* hllByteArr_; uint32_t hllByteArr_size; struct auxmap* auxHashMap_;
+                uint8_t curMin_; uint32_t numAtCurMin_; bool oooFlag_; double hipAccum_, kxq0_, kxq1_; };
+int g_live_hll;
+/* AuxHashMap::deserialize by its contract (unit hll_aux_reader): needs a readable range and a lgConfigK the sketch accepts */
+struct auxmap* aux_deserialize_c(const void* bytes, size_t len, uint8_t lgConfigK, uint32_t auxCount, uint8_t lgAuxArrInts, bool srcCompact)
+  __CPROVER_requires(__CPROVER_r_ok(bytes, len) && lgConfigK >= 4 && lgConfigK <= 21)
+  __CPROVER_assigns(verif_exc, g_live_aux)
+  __CPROVER_ensures(verif_exc != 0 ==> g_live_aux == __CPROVER_old(g_live_aux))
+  __CPROVER_ensures(verif_exc == 0 ==> g_live_aux == __CPROVER_old(g_live_aux) + 1);
+/* HllSketchImplFactory::newHll(lgK, type, startFullSize): allocates the register array of hllArrBytes(type, lgK) bytes */
+struct hllarr* factory_newHll_c(uint8_t lgConfigK, int tgtHllType, bool startFullSize) {
+  __CPROVER_assert(lgConfigK >= 4 && lgConfigK <= 21, "an HLL array is only ever created with a lg_k the sketch accepts (4..21)");
+  struct hllarr* s = (struct hllarr*)verif_alloc(sizeof(struct hllarr)); s->lgConfigK_ = lgConfigK; s->tgtHllType_ = (uint8_t)tgtHllType;
+  s->hllByteArr_size = tgtHllType == HLL_8 ? (1u << lgConfigK) : tgtHllType == HLL_6 ? (((1u << lgConfigK) * 3) >> 2) + 1 : (1u << (lgConfigK - 1));
+  s->hllByteArr_ = (uint8_t*)verif_alloc(s->hllByteArr_size); s->auxHashMap_ = NULL; g_live_hll++; return s;
+}
+'''
+arrbytes = [{"name": "hll%dArrBytes" % n, "file": HA, "match": r"uint32_t HllArray<A>::hll%dArrBytes\(uint8_t lgConfigK\)" % n, "sig": "uint32_t hll%dArrBytes(uint8_t lgConfigK)" % n} for n in (4, 6, 8)]
+hllArrBytes = {"name": "hllArrBytes", "file": HA, "match": r"uint32_t HllArray<A>::hllArrBytes\(target_hll_type tgtHllType, uint8_t lgConfigK\)",
+               "sig": "uint32_t hllArrBytes(int tgtHllType, uint8_t lgConfigK)", "throw_rv": "0"}
+extractTgt = {"name": "extractTgtHllType", "file": SI, "match": r"target_hll_type HllSketchImpl<A>::extractTgtHllType\(uint8_t modeByte\)", "sig": "int extractTgtHllType(uint8_t modeByte)", "throw_rv": "0"}
+extractMode = {"name": "extractCurMode", "file": SI, "match": r"hll_mode HllSketchImpl<A>::extractCurMode\(uint8_t modeByte\)", "sig": "int extractCurMode(uint8_t modeByte)", "throw_rv": "0"}
+checkLgK = {"name": "checkLgK", "file": "hll/include/HllUtil.hpp", "match": r"inline uint8_t HllUtil<A>::checkLgK\(uint8_t lgK\)", "sig": "uint8_t checkLgK(uint8_t lgK)", "throw_rv": "0"}
+
+newHll = {
+    "name": "newHll_bytes", "file": HA,
+    "match": r"HllArray<A>\* HllArray<A>::newHll\(const void\* bytes, size_t len, const A& allocator\)",
+    "sig": "struct hllarr* newHll_bytes(const void* bytes, size_t len)", "dropped_params": ["allocator"], "throw_rv": "NULL",
+    "propagate": ["HllSketchImpl<A>::extractCurMode", "HllSketchImpl<A>::extractTgtHllType", "hllArrBytes", "AuxHashMap<A>::deserialize", "HllUtil<A>::checkLgK"],
+    "rules": [(r"HllSketchImpl<A>::", "", "any"), (r"HllUtil<A>::", "", "any"), (r"const hll_mode mode", "const int mode", 1), (r"const target_hll_type tgtHllType", "const int tgtHllType", 1),
+              (r"AuxHashMap<A>\* auxHashMap = NULL;", "struct auxmap* auxHashMap = NULL;", 1),
+              (r"typedef std::unique_ptr<AuxHashMap<A>, std::function<void\(AuxHashMap<A>\*\)>> aux_hash_map_ptr;", "", 1),
+              (r"aux_hash_map_ptr aux_ptr;", "", 1),
+              (r"AuxHashMap<A>::deserialize\(auxDataStart, len - offset, lgK, auxCount, auxLgIntArrSize, comapctFlag, allocator\)", "aux_deserialize_c(auxDataStart, len - offset, lgK, auxCount, auxLgIntArrSize, comapctFlag)", 1),
+              (r"aux_ptr = aux_hash_map_ptr\(auxHashMap, auxHashMap->make_deleter\(\)\);", "aux_ptr_owned = auxHashMap;", 1),
+              (r"HllArray<A>\* sketch = HllSketchImplFactory<A>::newHll\(lgK, tgtHllType, startFullSizeFlag, allocator\);", "struct hllarr* sketch = factory_newHll_c(lgK, tgtHllType, startFullSizeFlag);", 1),
+              (r"sketch->putCurMin\(curMin\);", "sketch->curMin_ = curMin;", 1), (r"sketch->putOutOfOrderFlag\(oooFlag\);", "sketch->oooFlag_ = oooFlag;", 1),
+              (r"sketch->putHipAccum\(hip\);", "sketch->hipAccum_ = hip;", 1), (r"sketch->putKxQ0\(kxq0\);", "sketch->kxq0_ = kxq0;", 1), (r"sketch->putKxQ1\(kxq1\);", "sketch->kxq1_ = kxq1;", 1),
+              (r"sketch->putNumAtCurMin\(numAtCurMin\);", "sketch->numAtCurMin_ = numAtCurMin;", 1),
+              (r"memcpy\(sketch->hllByteArr_\.data\(\),", "memcpy(sketch->hllByteArr_,", 1),
+              (r"\(\(Hll4Array<A>\*\)sketch\)->putAuxHashMap\(auxHashMap\);", "sketch->auxHashMap_ = auxHashMap;", 1),
+              (r"aux_ptr\.release\(\);", "aux_ptr_owned = NULL;", 1)],
+    "unwind": "do { if (aux_ptr_owned != NULL) { aux_ptr_owned = NULL; g_live_aux--; } } while (0)",
+    "inserts": [(r"^\{", "struct auxmap* aux_ptr_owned = NULL;  /* the std::unique_ptr declared further down, hoisted so that VERIF_UNWIND can name it */", "after", 1)],
+    "contract": r'''
+__CPROVER_requires(len <= SIZE_CAP && __CPROVER_r_ok(bytes, len) && g_live_aux >= 0 && g_live_aux < 1000 && g_live_hll >= 0 && g_live_hll < 1000)
+__CPROVER_assigns(verif_exc, g_live_aux, g_live_hll)
+/* (from the property) any length, any content: every read of the image and the copy of the register array stay inside [bytes, bytes+len), no undefined shift on lg_k or the
+   target type, the register array allocated is no larger than what the image holds, and a rejected image leaves nothing allocated */
+__CPROVER_ensures(len < 40 ==> verif_exc != 0)
+__CPROVER_ensures(verif_exc != 0 ==> (g_live_aux == __CPROVER_old(g_live_aux) && g_live_hll == __CPROVER_old(g_live_hll)))
+__CPROVER_ensures(verif_exc == 0 ==> (g_live_hll == __CPROVER_old(g_live_hll) + 1 && (size_t)__CPROVER_return_value->hllByteArr_size + 40 <= len))
+''',
+}
+
+UNIT2 = {
+    "id": "hll_array_reader", "property": "C11",
+    "clause": "HllArray::newHll(bytes, len): for every length and content, header bytes, the three doubles, the two counts and the register array are read inside the buffer; lg_k and the target "
+              "type from the image cannot cause an undefined shift; the exception-table reader is only called with a lg_k the sketch accepts and a sub-range of the buffer; the register array "
+              "allocated fits the image; a rejected image leaves neither an array nor an exception table allocated",
+    "consts": crules.HLL_CONSTS,
+    "prelude": PRELUDE2,
+    "parts": arrbytes + [hllArrBytes, extractTgt, extractMode, checkLgK, newHll],
+    "harness": "void h_newhll(void) {" + crules.READER_INPUT + "  verif_exc = 0; newHll_bytes(in_bytes, in_size); VERIF_CANARY_POINT; }\n",
+    "jobs": [{"name": "newHll_bytes", "entry": "h_newhll", "enforce": "newHll_bytes", "timeout": 900, "unwind": 65, "object_bits": 10, "replace": ["aux_deserialize_c"]}],
+    "replay": {"newHll_bytes": {"template": "hll_reader.cpp", "vars": crules.READER_REPLAY_VARS}},
+    "assumptions": ["SIZE_CAP: symbolic buffer length 0..65536", "HllSketchImplFactory::newHll is a small C model (allocates the register array of hllArrBytes(type, lg_k) bytes and asserts lg_k in 4..21)",
+                    "the unique_ptr owning the exception table is modelled by VERIF_UNWIND on the throwing path"],
+}
+UNITS = [UNIT, UNIT2]
+del UNIT
+
+# ---------------------------------------------------------------- CouponList::newList(bytes) / CouponHashSet::newSet(bytes)
+CL = "hll/include/CouponList-internal.hpp"
+CH = "hll/include/CouponHashSet-internal.hpp"
+PRELUDE3 = PRELUDE2 + r'''
+struct couponlist { uint8_t lgConfigK_; uint8_t tgtHllType_; uint8_t mode_; uint32_t couponCount_; bool oooFlag_; uint32_t* coupons_; size_t coupons_size; };
+int g_live_cl, g_live0; size_t g_len;
+/* new CouponList(lgK, type, mode): coupon array of 2^LG_INIT_LIST_SIZE (LIST) or 2^LG_INIT_SET_SIZE (SET) entries */
+struct couponlist* couponlist_new_c(uint8_t lgConfigK, int tgtHllType, int mode) {
+  struct couponlist* s = (struct couponlist*)verif_alloc(sizeof(struct couponlist)); s->lgConfigK_ = lgConfigK; s->tgtHllType_ = (uint8_t)tgtHllType; s->mode_ = (uint8_t)mode; s->couponCount_ = 0;
+  s->coupons_size = (size_t)1 << (mode == LIST ? hll_constants_LG_INIT_LIST_SIZE : hll_constants_LG_INIT_SET_SIZE);
+  s->coupons_ = (uint32_t*)verif_alloc(s->coupons_size * sizeof(uint32_t)); g_live_cl++; return s;
+}
+/* coupons_.resize(n): the request must be justified by the image (no unbounded allocation from a corrupted size field) */
+void coupons_resize_c(struct couponlist* s, size_t n) {
+  __CPROVER_assert(n * sizeof(uint32_t) <= g_len, "coupon array requested by the image is no larger than the image");
+  s->coupons_ = (uint32_t*)verif_alloc(n * sizeof(uint32_t)); s->coupons_size = n;
+}
+void set_couponUpdate_c(struct couponlist* s, uint32_t coupon) __CPROVER_assigns(verif_exc, s->couponCount_) __CPROVER_ensures(1);
+'''
+newList = {
+    "name": "newList_bytes", "file": CL,
+    "match": r"CouponList<A>\* CouponList<A>::newList\(const void\* bytes, size_t len, const A& allocator\)",
+    "sig": "struct couponlist* newList_bytes(const void* bytes, size_t len)", "dropped_params": ["allocator"], "throw_rv": "NULL",
+    "propagate": ["HllSketchImpl<A>::extractCurMode", "HllSketchImpl<A>::extractTgtHllType", "HllUtil<A>::checkLgK"],
+    "rules": [(r"HllSketchImpl<A>::", "", "any"), (r"HllUtil<A>::", "", "any"), (r"hll_mode mode", "int mode", 1), (r"target_hll_type tgtHllType", "int tgtHllType", 1),
+              (r"ClAlloc cla\(allocator\);", "", 1), (r"CouponList<A>\* sketch = new \(cla\.allocate\(1\)\) CouponList<A>\(lgK, tgtHllType, mode, allocator\);", "struct couponlist* sketch = couponlist_new_c(lgK, tgtHllType, mode);", 1),
+              (r"sketch->putOutOfOrderFlag\(oooFlag\);", "sketch->oooFlag_ = oooFlag;", 1), (r"sketch->coupons_\.data\(\)", "sketch->coupons_", 1)],
+    "contract": r'''
+__CPROVER_requires(len <= SIZE_CAP && __CPROVER_r_ok(bytes, len) && g_live_cl >= 0 && g_live_cl < 1000)
+__CPROVER_assigns(verif_exc, g_live_cl)
+/* any length, any content: reads inside the buffer, the coupons copied fit the list's coupon array (pointer checks on the copy), nothing allocated on rejection */
+__CPROVER_ensures(len < 8 ==> verif_exc != 0)
+__CPROVER_ensures(verif_exc != 0 ==> g_live_cl == __CPROVER_old(g_live_cl))
+__CPROVER_ensures(verif_exc == 0 ==> __CPROVER_return_value->couponCount_ <= __CPROVER_return_value->coupons_size)
+''',
+}
+CZ = "common/include/count_zeros.hpp"
+cz_tables = {"name": "byte_trailing_zeros_table", "file": CZ, "begin": r"static const uint8_t byte_trailing_zeros_table\[256\] = \{", "include_begin": True, "end": r"static const uint64_t FCLZ_MASK_56", "rules": []}
+ctz32 = {"name": "count_trailing_zeros_in_u32", "file": CZ, "match": r"static inline uint8_t count_trailing_zeros_in_u32\(uint32_t input\)", "sig": "static inline uint8_t count_trailing_zeros_in_u32(uint32_t input)", "nloops": 1,
+         "loops": {1: "__CPROVER_assigns(i, input)\n__CPROVER_loop_invariant(i >= 0 && i <= 4)\n__CPROVER_decreases(4 - i)\n"}}
+cp2 = {"name": "ceiling_power_of_2", "file": "common/include/ceiling_power_of_2.hpp", "match": r"static inline uint32_t ceiling_power_of_2\(uint32_t n\)", "sig": "static inline uint32_t ceiling_power_of_2(uint32_t n)"}
+lgaux = {"name": "LG_AUX_ARR_INTS", "file": "hll/include/HllUtil.hpp", "begin": r"static const uint8_t LG_AUX_ARR_INTS\[\] = \{", "include_begin": True, "end": r"\};", "include_end": True,
+         "rules": [(r"LG_AUX_ARR_INTS", "hll_constants_LG_AUX_ARR_INTS", 1)]}
+simpleIntLog2 = {"name": "simpleIntLog2", "file": "hll/include/HllUtil.hpp", "match": r"inline uint8_t HllUtil<A>::simpleIntLog2\(uint32_t n\)", "sig": "static inline uint8_t simpleIntLog2(uint32_t n)", "throw_rv": "0"}
+computeLgArrInts_real = {"name": "computeLgArrInts", "file": "hll/include/HllUtil.hpp", "match": r"inline uint8_t HllUtil<A>::computeLgArrInts\(hll_mode mode, uint32_t count, uint8_t lgConfigK\)",
+                         "sig": "static inline uint8_t computeLgArrInts(int mode, uint32_t count, uint8_t lgConfigK)", "throw_rv": "0",
+                         "rules": [(r"HllUtil<A>::", "", "any"), (r"std::max\(", "VMAX(", 2)], "propagate": ["HllUtil<A>::simpleIntLog2"]}
+COMPUTE_PARTS = [cp2, lgaux, simpleIntLog2, computeLgArrInts_real]
+newSet = {
+    "name": "newSet_bytes", "file": CH,
+    "match": r"CouponHashSet<A>\* CouponHashSet<A>::newSet\(const void\* bytes, size_t len, const A& allocator\)",
+    "sig": "struct couponlist* newSet_bytes(const void* bytes, size_t len)", "dropped_params": ["allocator"], "throw_rv": "NULL", "nloops": 1,
+    "propagate": ["HllSketchImpl<A>::extractCurMode", "HllSketchImpl<A>::extractTgtHllType", "HllUtil<A>::checkLgK", "sketch->couponUpdate", "HllUtil<>::computeLgArrInts"],
+    "rules": [(r"HllSketchImpl<A>::", "", "any"), (r"HllUtil<A>::", "", "any"), (r"HllUtil<>::", "", "any"), (r"const hll_mode mode", "const int mode", 1), (r"const target_hll_type tgtHllType", "const int tgtHllType", 1),
+              (r"ChsAlloc chsa\(allocator\);", "", 1), (r"CouponHashSet<A>\* sketch = new \(chsa\.allocate\(1\)\) CouponHashSet<A>\(lgK, tgtHllType, allocator\);", "struct couponlist* sketch = couponlist_new_c(lgK, tgtHllType, SET);", 1),
+              (r"typedef std::unique_ptr<CouponHashSet<A>, std::function<void\(HllSketchImpl<A>\*\)>> coupon_hash_set_ptr;", "", "any"),
+              (r"coupon_hash_set_ptr ptr\(sketch, sketch->get_deleter\(\)\);", "set_ptr_owned = sketch;", "any"),
+              (r"return ptr\.release\(\);", "{ set_ptr_owned = NULL; return sketch; }", "any"),
+              (r"sketch->couponUpdate\(coupon\);", "set_couponUpdate_c(sketch, coupon);", 1), (r"sketch->coupons_\.resize\(([^;]*)\);", r"coupons_resize_c(sketch, \1);", 1),
+              (r"sketch->coupons_\.data\(\)", "sketch->coupons_", 1)],
+    "inserts": [(r"^\{", "g_len = len; struct couponlist* set_ptr_owned = NULL;", "after", 1)],
+    "unwind": "do { if (set_ptr_owned != NULL) { set_ptr_owned = NULL; g_live_cl--; } } while (0)",
+    "contract": r'''
+__CPROVER_requires(len <= SIZE_CAP && __CPROVER_r_ok(bytes, len) && g_live_cl >= 0 && g_live_cl < 1000 && g_live0 == g_live_cl)
+__CPROVER_assigns(verif_exc, g_live_cl, g_len)
+__CPROVER_ensures(len < 12 ==> verif_exc != 0)
+__CPROVER_ensures(verif_exc != 0 ==> g_live_cl == __CPROVER_old(g_live_cl))
+''',
+    "loops": {1: r'''
+__CPROVER_assigns(i, curPos, coupon, verif_exc, sketch->couponCount_, g_live_cl, set_ptr_owned)
+__CPROVER_loop_invariant(set_ptr_owned == sketch && g_live_cl == g_live0 + 1)
+__CPROVER_loop_invariant(i <= couponCount && verif_exc == 0 && __CPROVER_same_object(curPos, bytes) && __CPROVER_POINTER_OFFSET(curPos) == 12 + 4 * (size_t)i)
+__CPROVER_decreases(couponCount - i)
+'''},
+}
+UNIT3 = {
+    "id": "hll_coupon_readers", "property": "C11",
+    "clause": "CouponList::newList(bytes) and CouponHashSet::newSet(bytes): for every length and content, header and coupon reads stay inside the buffer, the coupons copied fit the "
+              "sketch's coupon array (no write past it), size fields of the image cannot cause an undefined shift or an allocation larger than the image",
+    "consts": crules.HLL_CONSTS,
+    "prelude": "#define REAL_COMPUTE_LG 1\n" + PRELUDE3 + "/* table-driven trailing-zero count, by its contract (proved in C03 unit hll_coupon job ctz32) */\nuint8_t count_trailing_zeros_in_u32(uint32_t input) __CPROVER_assigns() __CPROVER_ensures(__CPROVER_return_value == (input == 0 ? 32 : __builtin_ctz(input)));\n",
+    "parts": COMPUTE_PARTS + [extractTgt, extractMode, checkLgK, newList, newSet],
+    "harness": "void h_newlist(void) {" + crules.READER_INPUT + "  verif_exc = 0; newList_bytes(in_bytes, in_size); VERIF_CANARY_POINT; }\n"
+               "void h_newset(void) {" + crules.READER_INPUT + "  verif_exc = 0; newSet_bytes(in_bytes, in_size); VERIF_CANARY_POINT; }\n",
+    "jobs": [{"name": "newList_bytes", "entry": "h_newlist", "enforce": "newList_bytes", "timeout": 900, "unwind": 65, "object_bits": 10, "replace": ["count_trailing_zeros_in_u32"]},
+             {"name": "newSet_bytes", "entry": "h_newset", "enforce": "newSet_bytes", "timeout": 900, "unwind": 65, "object_bits": 10, "loops": True, "expect_loop_steps": 1,
+              "replace": ["set_couponUpdate_c", "count_trailing_zeros_in_u32"]}],
+    "replay": {"*": {"template": "hll_reader.cpp", "vars": crules.READER_REPLAY_VARS}},
+    "assumptions": ["object creation (new CouponList / CouponHashSet, coupons_.resize) are small C models; computeLgArrInts and the hash-set couponUpdate are frame-only contracts",
+                    "SIZE_CAP: symbolic buffer length 0..65536"],
+}
+UNITS.append(UNIT3)
